@@ -237,17 +237,21 @@ func quietFP() (string, bool) {
 // has read its observation, that nothing has moved in between (an observation read while goroutines were still moving is
 // not an observation of a quiescent state; seen once in some hundred runs of C14K1 on an overloaded machine).
 func quiesceFP(gap, deadline time.Duration) (string, bool) {
+	// three identical all-blocked samples in a row (two used to be enough; see above)
 	end := time.Now().Add(deadline)
-	prev := "\x00"
+	prev, same := "\x00", 0
 	for time.Now().Before(end) {
 		fp, ok := quietFP()
-		if ok && fp == prev {
-			return fp, true
-		}
-		if ok {
-			prev = fp
-		} else {
-			prev = "\x00"
+		switch {
+		case ok && fp == prev:
+			same++
+			if same >= 2 {
+				return fp, true
+			}
+		case ok:
+			prev, same = fp, 0
+		default:
+			prev, same = "\x00", 0
 		}
 		time.Sleep(gap)
 	}
